@@ -40,7 +40,7 @@ Blank(owner, minter, seq) ==
      owner |-> owner, seq |-> seq]
 
 -----------------------------------------------------------------------------
-Order == <<"role_auth", "named_auth", "is_minter", "amount", "expiry", "host_ttl",
+Order == <<"unimplemented", "role_auth", "named_auth", "is_minter", "amount", "expiry", "host_ttl",
            "allowance", "balance", "overflow">>
 
 (* mint_from(minter, to, amount);  mint(to, amount) = mint_from(owner, to, amount) *)
@@ -127,6 +127,13 @@ TransferOwnership(st, a) ==
 
 AdvanceLedger(st, a) == Acc([st EXCEPT !.seq = @ + a.d], "unit", <<>>)
 
+(* StellarAssetInterface entries the token declares but does not implement (`todo!()`): set_authorized,
+   authorized and clawback always trap, whoever authorises; balances can therefore only move through
+   the entries above *)
+Unimplemented(st, a) ==
+    Rej(st, "unimplemented",
+        {"unimplemented"} \cup (IF a.name = "Clawback" /\ a.from \notin a.auth THEN {"named_auth"} ELSE {}))
+
 Apply(st, a) ==
     CASE a.name = "Mint"              -> Mint(st, a)
       [] a.name = "MintFrom"          -> MintFrom(st, a)
@@ -139,6 +146,7 @@ Apply(st, a) ==
       [] a.name = "BurnFrom"          -> BurnFrom(st, a)
       [] a.name = "TransferOwnership" -> TransferOwnership(st, a)
       [] a.name = "AdvanceLedger"     -> AdvanceLedger(st, a)
+      [] a.name \in {"Clawback", "SetAuthorized", "Authorized"} -> Unimplemented(st, a)
 
 -----------------------------------------------------------------------------
 RECURSIVE SumOver(_, _)
